@@ -533,6 +533,9 @@ func freshBufferRoot(root ssa.Value) (bool, string) {
 				}
 			}
 			if reset == nil {
+				if poolHoldsOnlyResetObjects(x) {
+					return true, "obtained from a pool into which only freshly made or Reset objects are put"
+				}
 				return false, "obtained from " + name + " and never Reset: it can still hold bytes of an earlier packaging"
 			}
 			for _, u := range users {
@@ -554,4 +557,58 @@ func freshBufferRoot(root ssa.Value) (bool, string) {
 		return false, "package-level buffer " + globalName(x) + ": shared by all packagings"
 	}
 	return true, fmt.Sprintf("%T", root)
+}
+
+// poolHoldsOnlyResetObjects: get is (*sync.Pool).Get on a package-level pool
+// whose every Put, anywhere in the module, hands back a value on which Reset
+// (or Truncate) was called before - in the same function, dominating the Put -
+// and whose New function returns a fresh allocation.
+func poolHoldsOnlyResetObjects(get *ssa.Call) bool {
+	o := calleeObj(get)
+	if o == nil || o.Name() != "Get" || o.Pkg() == nil || o.Pkg().Path() != "sync" || len(get.Call.Args) == 0 {
+		return false
+	}
+	g, ok := get.Call.Args[0].(*ssa.Global)
+	if !ok || get.Parent() == nil {
+		return false
+	}
+	puts := 0
+	for _, fn := range moduleFuncsByProg[get.Parent().Prog] {
+		bad := false
+		forEachInstr(fn, func(in ssa.Instruction) {
+			ci, ok := in.(ssa.CallInstruction)
+			if !ok {
+				return
+			}
+			po := calleeObj(ci)
+			if po == nil || po.Name() != "Put" || po.Pkg() == nil || po.Pkg().Path() != "sync" || len(ci.Common().Args) < 2 {
+				return
+			}
+			if pg, isG := ci.Common().Args[0].(*ssa.Global); !isG || pg != g {
+				return
+			}
+			puts++
+			v := ci.Common().Args[1]
+			if mi, isMI := v.(*ssa.MakeInterface); isMI {
+				v = mi.X
+			}
+			reset := false
+			if v.Referrers() != nil {
+				for _, ref := range *v.Referrers() {
+					if rc, isCall := ref.(*ssa.Call); isCall {
+						if ro := calleeObj(rc); ro != nil && (ro.Name() == "Reset" || ro.Name() == "Truncate") && callReceiver(rc) == v && instrDominates(rc, in) {
+							reset = true
+						}
+					}
+				}
+			}
+			if !reset {
+				bad = true
+			}
+		})
+		if bad {
+			return false
+		}
+	}
+	return puts > 0
 }
